@@ -13,8 +13,8 @@ pub const DIRS: [&str; 3] = ["", "sub", "sub/deep"];
 pub const SHAPES: [&str; 3] = ["a.txt.txtpp", "b.txtpp.txt", "c.txtpp"];
 pub const DOTTED: [&str; 3] = ["g.h.i.txtpp", "g2.h.txtpp.i", "g3.h.txtpp"];
 pub const LOOKALIKES: [&str; 6] = ["txtpp", ".txtpp", ".txtpp.x", "d.txtpp.b.c", "e.txt", "F.TXTPP"];
-pub const SPELLINGS: [&str; 17] = [
-    "sub/", "./", ".", "sub", "sub/deep", "./sub/..", "a.txt", "a.txt.txtpp", "./a.txt", "sub/../a.txt", "ABS:a.txt", "sub/b.txt", "sub/deep/c", "missing.txt",
+pub const SPELLINGS: [&str; 19] = [
+    "a.txtpp.txt", "sub/b.txt.txtpp", "sub/", "./", ".", "sub", "sub/deep", "./sub/..", "a.txt", "a.txt.txtpp", "./a.txt", "sub/../a.txt", "ABS:a.txt", "sub/b.txt", "sub/deep/c", "missing.txt",
     "missing.txtpp", "e.txt", "txtpp",
 ];
 
@@ -371,11 +371,11 @@ pub fn run_c11(tier: &str) -> i32 {
     for m in [[0, 0, 0], [7, 7, 7], [1, 2, 4]] {
         specs.push(TreeSpec { masks: m, dotted: false, include_variant: false, dirlike: true });
     }
-    let lists = input_lists(if thorough { 2 } else { 1 });
+    let lists = input_lists(2);
     let lists1 = input_lists(1);
     rep.set("trees", json!(specs.len()));
     rep.set("input_lists", json!(lists.len()));
-    rep.set("bounds", json!(format!("{} trees (3 directory levels x subsets of 3 source-name shapes, look-alikes in every directory, dotted-stem and include variants) x input lists of length <= {} over 17 spellings x recursive on/off x build/needed/verify/clean x base absolute/relative", specs.len(), if thorough { 2 } else { 1 })));
+    rep.set("bounds", json!(format!("{} trees (3 directory levels x subsets of 3 source-name shapes, look-alikes in every directory, dotted-stem and include variants) x input lists of length <= 2 (other modes: 1) [{}] over 19 spellings x recursive on/off x build/needed/verify/clean x base absolute/relative", specs.len(), if thorough { 2 } else { 1 })));
     rep.assume("the reference set-of-sources function (harness/src/etree.rs: expected_set) is written from the property statement");
     rep.st(specs.len());
     sharded_dyn(&rep, par_threads(), |_k, _n, next, rep| {
@@ -403,7 +403,7 @@ pub fn run_c11(tier: &str) -> i32 {
                     rep.tr(4);
                 }
                 if thorough && (i % 8 == 7 || spec.dotted || spec.include_variant) {
-                    for l in lists.iter().skip(17) {
+                    for l in lists.iter().skip(19) {
                         check_case(rep, &env, spec, l, rec, &Mode::Clean, false);
                         rep.tr(1);
                     }
